@@ -19,6 +19,7 @@ R-C04-5  (MIR, Ok-path) name resolution is strict: an identifier that is not Non
          not in the environment is an error; the five lookups (class, function, field, Class::field, Class::fun) return an error
          on every path on which the search found nothing; field/function access looks up every member of a union.
 R-C04-7  (field-flow + syntax, shared with R-C09-3) no AttributeError from a field read before the constructor assigned it.
+R-C04-8  (syntax, shared with R-C20-5) the boolean accumulators of the functions that decide assignability are monotone.
 R-C04-6  (tables) the bundled stubs are true of CPython 3.10 (tables/python_stub_oracle.json, extracted once with
          tools/gen_py_oracle.py): every stubbed method exists on the real class, every argument class a stub accepts is one for
          which the real operator does not raise TypeError, and the declared result class covers every real result class.
@@ -79,6 +80,9 @@ def run(chk, facts):
     _stubs(chk, facts)
     from .c09 import field_init
     field_init(chk, facts, "R-C04-7")
+    chk.rule("R-C04-8", "the comparator: for-all / exists accumulators of the assignability functions are monotone (shared with R-C20-5); direction of unify_type (R-C05-4)")
+    from .c20 import accumulators
+    accumulators(chk, facts, "R-C04-8")
     chk.assume("soundness of unification (substitution, `Any` accepts everything by design, generics) is not decided (ND); "
                "value-dependent errors (index out of range, division by zero) are outside the property")
     chk.notes.append("C04: traversal census, constraint census, dispatch, operator->protocol-method chain, strict lookups on MIR, stubs vs CPython table.")
